@@ -7,6 +7,7 @@
 package snowflake_proxy
 
 import (
+	"bytes"
 	"crypto/tls"
 	"encoding/json"
 	"fmt"
@@ -105,6 +106,7 @@ type vPeer struct {
 	shut     bool
 	seq      int
 	stall    int32 // 1: the message callback blocks (a client that stops reading)
+	sink     atomic.Value // func([]byte): receives every message instead of the inbox
 }
 
 // vNewPeer creates a peer connection with one data channel and a complete
@@ -141,6 +143,10 @@ func vNewPeerOpt(negotiated bool) (*vPeer, error) {
 	dc.OnMessage(func(m webrtc.DataChannelMessage) {
 		for atomic.LoadInt32(&p.stall) == 1 {
 			time.Sleep(20 * time.Millisecond)
+		}
+		if f, _ := p.sink.Load().(func([]byte)); f != nil {
+			f(m.Data)
+			return
 		}
 		select {
 		case p.inbox <- string(m.Data):
@@ -438,7 +444,7 @@ func (r *vRelay) serve(w http.ResponseWriter, req *http.Request) {
 			// after the client's first message: 4 MiB in 16 KiB messages, then silence
 			// (the relay stays connected and goes on reading)
 			go func() {
-				chunk := make([]byte, 16<<10)
+				chunk := bytes.Repeat([]byte{0xA5}, 16<<10)
 				for i := 0; i < 256; i++ {
 					c.wmu.Lock()
 					err := ws.WriteMessage(websocket.BinaryMessage, chunk)
@@ -457,7 +463,7 @@ func (r *vRelay) serve(w http.ResponseWriter, req *http.Request) {
 		}
 		if mode == "stream" {
 			// after the client's first message: a never-ending download
-			chunk := make([]byte, 1200)
+			chunk := bytes.Repeat([]byte{0xA5}, 1200)
 			for {
 				c.wmu.Lock()
 				err = ws.WriteMessage(websocket.BinaryMessage, chunk)
